@@ -32,7 +32,7 @@ import (
 // Pods - under every cron dynamic configuration. (b): one-field changes of immutable Job fields
 // must be rejected by the Job update chain.
 
-var c17Atoms = []string{"*", "*", "*/5", "0", "1", "59", "60", "H", "H/3", "H(1-5)", "H(5-1)", "?", "L", "1W", "MON", "JAN", "1-5", "5-1", "1,2", "*/0", "0/15", "2#1", "x", "-1", "99", "1-", "@hourly", "@daily", "@every 5m", "1/0", "H/0", "LW", "15W", "6L", "*/60", "2040", "1970", "2100", "7", "0-7", "SUN-SAT", "1-31", "*/31", "12", "0,30"}
+var c17Atoms = []string{"*", "*", "*/5", "0", "1", "59", "60", "H", "H/3", "H(1-5)", "H(5-1)", "H(5-4)", "H(50-10)", "H(7-1)", "H(1-7)", "H(6-7)", "H(12-1)", "H(DEC-JAN)", "H(SAT-SUN)", "H(0-7)", "H(5-1)/2", "?", "L", "1W", "MON", "JAN", "1-5", "5-1", "1,2", "*/0", "0/15", "2#1", "x", "-1", "99", "1-", "@hourly", "@daily", "@every 5m", "1/0", "H/0", "LW", "15W", "6L", "*/60", "2040", "1970", "2100", "7", "0-7", "SUN-SAT", "1-31", "*/31", "12", "0,30"}
 
 func c17Cronish(r *rand.Rand, quartz, allowH bool) string {
 	if r.Intn(3) == 0 {
@@ -187,20 +187,23 @@ func runC17(env *core.Env, res *core.Result) {
 	for i := env.From; i < env.To; i++ {
 		res.Cases++
 		r := env.Rand(i)
-		if e == nil || (i-env.From)%40 == 0 {
-			e = newC16Env(r)
-			g = genCronConfig(r)
+		if e == nil || i%40 == 0 {
+			// the environment (dynamic configuration, fixtures) is a function of the block of 40 cases, not of
+			// where a shard happens to start, so that a single case replays under the environment it ran in
+			br := env.Rand(1<<30 + i/40)
+			e = newC16Env(br)
+			g = genCronConfig(br)
 			e.cfg.SetConfigs(map[configv1alpha1.ConfigName]runtime.Object{configv1alpha1.JobExecutionConfigName: e.jobCfg.DeepCopy(), configv1alpha1.CronExecutionConfigName: g.config()})
 		}
 		if i%3 == 2 {
 			c17Pair(i, r, e, res)
 		} else {
-			c17Accepted(i, r, e, g, res)
+			c17Accepted(i, r, e, g, res, env.To-i-1)
 		}
 	}
 }
 
-func c17Accepted(i int, r *rand.Rand, e *c16Env, g cronConfigGen, res *core.Result) {
+func c17Accepted(i int, r *rand.Rand, e *c16Env, g cronConfigGen, res *core.Result, remaining int) {
 	viol := func(sig, f string, a ...interface{}) {
 		res.Violate(core.Violation{Prop: "C17", Sig: sig, Msg: fmt.Sprintf(f, a...), Case: i})
 	}
@@ -230,7 +233,13 @@ func c17Accepted(i int, r *rand.Rand, e *c16Env, g cronConfigGen, res *core.Resu
 					viol("panic-"+what, "%s panicked on an accepted JobConfig (%s): %v", what, desc(), p)
 				}
 			}()
-			if err := f(); err != nil {
+			var err error
+			if !core.Bounded(60*time.Second, func() { err = f() }) {
+				// the call is still spinning after a minute of CPU time: this is what wedges a controller
+				viol("accepted-but-"+what+"-never-returns", "admission accepted a JobConfig on which %s does not return (60 s of CPU time spent) (%s)", what, desc())
+				core.AbortWorker(res, remaining)
+			}
+			if err != nil {
 				okk = false
 				viol("accepted-but-"+what+"-fails", "admission accepted a JobConfig that %s cannot process: %v (%s)", what, err, desc())
 			}
